@@ -65,7 +65,7 @@ leads, instance 2 (priority 2, takeover) preempts it, and instance 1's graceful 
 noticed, deletes instance 2's record. -/
 
 def cfg1 : InstCfg := { id := 1, key := "g", prio := 1, takeover := false, hb := 1000000000, ttl := 3000000000, val := 0,
-                        grace := 0, maxFail := 0, hasHealth := false, connMon := false, storeTTL := 3000000000 }
+                        grace := 0, maxFail := 0, hasHealth := false, connMon := false, storeTTL := 3000000000, callbacks := true }
 def cfg2 : InstCfg := { cfg1 with id := 2, prio := 2, takeover := true }
 
 def f10Trace : List TEv := [
